@@ -9,7 +9,7 @@ Assumptions of this encoding (reported in every evidence file, see report.ASSUMP
 """
 import z3
 
-Seq = z3.DeclareSort("Seq")
+Seq = z3.DeclareSort("PySeq")
 
 _V = z3.Datatype("Val")
 _V.declare("none")
@@ -57,22 +57,25 @@ def seq_axioms():
     A = []
 
     def fa(vs, body, pats):
-        A.append(z3.ForAll(vs, body, patterns=pats))
+        import re as _re
+        nm = _re.sub(r"[^A-Za-z0-9]+", "_", str(pats[0]))[:40] if pats else ""
+        A.append(z3.ForAll(vs, body, patterns=pats, qid=f"seqax{len(A)}_{nm}"))
 
     fa([s], Len(s) >= 0, [Len(s)])
     A.append(Len(Empty) == 0)
     fa([s], z3.Implies(Len(s) == 0, s == Empty), [Len(s)])
-    fa([s, x], Contains(s, x) == z3.And(0 <= IndexOf(s, x), IndexOf(s, x) < Len(s)), [Contains(s, x)])
-    fa([s, x], z3.And(IndexOf(s, x) >= -1,
-                      z3.Implies(IndexOf(s, x) >= 0,
-                                 z3.And(IndexOf(s, x) < Len(s), At(s, IndexOf(s, x)) == x))),
-       [IndexOf(s, x)])
-    # first-occurrence property
+    # Contains / IndexOf.  Term-creation discipline (no matching loops): At -> Contains -> IndexOf and
+    # nothing creates new At terms from IndexOf terms (the executor adds the ground instance
+    # At(s, IndexOf(s, x)) == x wherever it creates an IndexOf term: see index_fact()).
+    # NB z3 applies destructive equality resolution to axioms of the shape  At(s,i) == x ==> ...,
+    # so such axioms are written directly in their resolved form.
+    fa([s, x], Contains(s, x) == (IndexOf(s, x) >= 0), [Contains(s, x)])
+    fa([s, x], z3.And(IndexOf(s, x) >= -1, IndexOf(s, x) < Len(s)), [IndexOf(s, x)])
     fa([s, i], z3.Implies(z3.And(0 <= i, i < Len(s)),
-                          z3.And(0 <= IndexOf(s, At(s, i)), IndexOf(s, At(s, i)) <= i,
-                                 Contains(s, At(s, i)))), [At(s, i)])
-    fa([s, x, i], z3.Implies(z3.And(0 <= i, i < IndexOf(s, x)), At(s, i) != x),
-       [z3.MultiPattern(IndexOf(s, x), At(s, i))])
+                          z3.And(Contains(s, At(s, i)), 0 <= IndexOf(s, At(s, i)), IndexOf(s, At(s, i)) <= i)),
+       [At(s, i)])
+    # witness of membership; relevancy keeps this from chaining when Contains(s, x) is not asserted
+    fa([s, x], z3.Implies(Contains(s, x), At(s, IndexOf(s, x)) == x), [Contains(s, x)])
     # Append1
     fa([s, x], z3.And(Len(Append1(s, x)) == Len(s) + 1, At(Append1(s, x), Len(s)) == x), [Append1(s, x)])
     fa([s, x, i], z3.Implies(z3.And(0 <= i, i < Len(s)), At(Append1(s, x), i) == At(s, i)),
@@ -89,9 +92,6 @@ def seq_axioms():
     fa([s, k, i], z3.Implies(z3.And(0 <= k, k < Len(s), 0 <= i, i < Len(s) - 1),
                              At(RemoveAt(s, k), i) == z3.If(i < k, At(s, i), At(s, i + 1))),
        [At(RemoveAt(s, k), i)])
-    fa([s, k, j], z3.Implies(z3.And(0 <= k, k < Len(s), 0 <= j, j < Len(s), j != k),
-                             At(RemoveAt(s, k), z3.If(j < k, j, j - 1)) == At(s, j)),
-       [z3.MultiPattern(RemoveAt(s, k), At(s, j))])
     fa([s, k, y], z3.Implies(z3.And(0 <= k, k < Len(s), Contains(RemoveAt(s, k), y)), Contains(s, y)),
        [Contains(RemoveAt(s, k), y)])
     # an element other than the removed one stays
@@ -122,9 +122,6 @@ def seq_axioms():
        [At(Concat(s, s2), i)])
     fa([s, s2, x], Contains(Concat(s, s2), x) == z3.Or(Contains(s, x), Contains(s2, x)),
        [Contains(Concat(s, s2), x)])
-    # membership from position (needed to go from At to Contains without IndexOf reasoning)
-    fa([s, i, x], z3.Implies(z3.And(0 <= i, i < Len(s), At(s, i) == x), Contains(s, x)),
-       [z3.MultiPattern(At(s, i), Contains(s, x))])
     A.append(z3.ForAll([x], z3.Not(Contains(Empty, x)), patterns=[Contains(Empty, x)]))
     # Range
     fa([n], z3.Implies(n >= 0, Len(Range(n)) == n), [Range(n)])
@@ -135,7 +132,8 @@ def seq_axioms():
     fa([s, x], SumI(Append1(s, x)) == SumI(s) + inti(x), [SumI(Append1(s, x))])
     fa([s, x], SumR(Append1(s, x)) == SumR(s) + numr(x), [SumR(Append1(s, x))])
     # partial sums: unfold one step whenever both the partial sum and the next element are mentioned
-    fa([s], z3.And(PSum(s, 0) == 0, PSumI(s, 0) == 0), [Len(s)])
+    fa([s], PSum(s, 0) == 0, [PSum(s, 0)])
+    fa([s], PSumI(s, 0) == 0, [PSumI(s, 0)])
     fa([s, n], z3.Implies(z3.And(0 <= n, n < Len(s)), PSum(s, n + 1) == PSum(s, n) + numr(At(s, n))),
        [z3.MultiPattern(PSum(s, n), At(s, n))])
     fa([s, n], z3.Implies(z3.And(0 <= n, n < Len(s)), PSumI(s, n + 1) == PSumI(s, n) + inti(At(s, n))),
@@ -146,6 +144,11 @@ def seq_axioms():
 
 
 # ---- Val helpers --------------------------------------------------------------------------------
+def index_fact(s, x):
+    """ground instance accompanying every IndexOf(s, x) term the executor creates"""
+    return z3.Implies(IndexOf(s, x) >= 0, At(s, IndexOf(s, x)) == x)
+
+
 def is_(c, v):
     return getattr(Val, "is_" + c)(v)
 
@@ -274,14 +277,19 @@ def is_number(v):   # a non-negative-or-any finite number or +inf, float world o
     return z3.Or(isfin(v), Val.is_pinf(v), Val.is_decv(v), Val.is_dpinf(v))
 
 
-def forall(vs, body, patterns=None):
+_qn = [0]
+
+
+def forall(vs, body, patterns=None, qid=None):
     """ForAll with the given patterns; if z3 rejects them (ite / connective inside), fall back to inference"""
+    _qn[0] += 1
+    qid = (qid or "q") + str(_qn[0])
     if patterns:
         try:
-            return z3.ForAll(vs, body, patterns=patterns)
+            return z3.ForAll(vs, body, patterns=patterns, qid=qid)
         except z3.Z3Exception:
             pass
-    return z3.ForAll(vs, body)
+    return z3.ForAll(vs, body, qid=qid)
 
 
 def exists(vs, body, patterns=None):
